@@ -379,7 +379,7 @@ def _drive(ctx, cases, fn, nontrivial=lambda c: True, shrink=None):
         ctx.case(key=case, nontrivial=nontrivial(case))
         for f in fn(case):
             small = case
-            if shrink is not None and ctx._per_clause.get(f['clause'], 0) < ctx.MAX_PER_CLAUSE:
+            if shrink is not None and getattr(ctx, '_per_clause', {}).get(f['clause'], 0) < getattr(ctx, 'MAX_PER_CLAUSE', 3):
                 small = shrink(case, f['clause'])
                 f = ([g for g in fn(small) if g['clause'] == f['clause']] or [f])[0]
             ctx.check(False, clause=f['clause'], input=small, observed=f['observed'], required=f['required'])
